@@ -1,4 +1,5 @@
 import Uquic.Oracle.Frame
+import Uquic.Model.ConnID.Redial
 
 open Uquic.Oracle
 
@@ -37,9 +38,55 @@ def stepMig (op impl : String) : Unit × StepOut :=
                   if get "sw=" == "ok" then "mig:switch-ok" else if get "sw=" == "-" then "mig:no-switch" else "mig:switch-failed"]
   ((), { model := expected, tags := ["mig"] ++ tags.map (fun t => "mig:" ++ t) ++ outcome, fails := f1 ++ f2 })
 
+/-- `redial`: two connections, one after the other, dialled on the same client transport (Transport.doDial /
+    UTransport.doDial register the new connection's ID). The prediction comes from `Model.ConnID.Redial`: whatever the
+    closing period of the first connection is, the ID of the second one is routed to the second one. -/
+def stepRedial (op impl : String) : Unit × StepOut :=
+  let w := words op
+  let iw := words impl
+  let get (k : String) : String := (fieldOf iw k).getD "?"
+  let arg (k : String) : String := (fieldOf w k).getD "?"
+  let zeroLen := arg "cli=" == "plain0" || arg "cli=" == "chrome"
+  let how := arg "how="
+  let gap : Int := intOf (arg "gap=")
+  let hold : Int := intOf (arg "hold=")
+  -- the closing period (3 PTO) is not known to the oracle: the prediction must not depend on it
+  let cancelled := how == "cancel" && get "d1=" == "cancelled"
+  let preds := [1, gap, gap + 1, gap + hold, gap + hold + 1, 1000000].map fun e =>
+    Uquic.Model.ConnID.redialScenario zeroLen (if cancelled then .destroy else .close (how != "closes") e) gap hold
+  let reg := if preds.all (fun p => p.2.1 == "conn") then "conn" else "conn|" ++ "|".intercalate (preds.map (·.2.1))
+  let late := if preds.all (fun p => p.2.2 == "conn") then "conn" else "conn|" ++ "|".intercalate (preds.map (·.2.2))
+  let live := if preds.all (fun p => p.1 == 0) then "0" else "0|" ++ "|".intercalate (preds.map fun p => toString p.1)
+  -- a cancelled dial may have completed its handshake just before the deadline: then it was closed by the client
+  let d1 := if how == "vn" then "vn" else if cancelled then "cancelled" else "ok"
+  let expected := s!"d1={d1} after1={if how == "vn" then "-" else live} d2reg={if how == "vn" then "-" else reg} d2=ok d2route={reg} echo=ok late={late} end_srv=0/0 end_cli=0/0"
+  let firstOK := get "d1=" == d1
+  let f0 : List (String × String × String) :=
+    if firstOK && get "after1=" != "0" && get "after1=" != "-" then
+      [("closed_connection_still_routed_e2e", "-",
+        s!"the first connection on the transport is over ({how}), yet {get "after1="} entries of the client's routing table still route to a live connection when the next dial begins")]
+    else []
+  let bad := (get "d2reg=" != "conn" && get "d2reg=" != "-") || get "d2=" != "ok" || get "d2route=" != "conn" ||
+    get "echo=" != "ok" || get "late=" != "conn"
+  let f1 : List (String × String × String) :=
+    if firstOK && bad then
+      [("redial_routed_e2e", "-",
+        s!"a second connection dialled on the same transport ({arg "cli="}, first connection ended by {how}, {arg "gap="} ms before): its connection ID is routed to '{get "d2reg="}' right after the dial registered it, dial: {get "d2="}, routed to '{get "d2route="}' when Dial returned, echo over the new connection after the first one's closing period: {get "echo="}, routed then: '{get "late="}' (must be: conn, ok, conn, ok, conn)")]
+    else []
+  let f2 : List (String × String × String) :=
+    if firstOK && !bad && (get "end_srv=" != "0/0" || get "end_cli=" != "0/0") then
+      [("routing_clean_after_close_e2e", "-", s!"after both connections closed and the closing period (routes/tokens): server {get "end_srv="}, client {get "end_cli="}")]
+    else []
+  let gapTag := if gap == 0 then "0" else if gap < 600 then "short" else "long"
+  let idTag := if zeroLen then "same-id" else "fresh-id"
+  let tags := ["redial", s!"redial:cli={arg "cli="}", s!"redial:how={how}", s!"redial:{idTag}", s!"redial:gap-{gapTag}"]
+  let tags := tags ++ [s!"redial:first-{d1}"] ++ (if arg "retry=" == "1" then ["redial:retry"] else [])
+  ((), { model := expected, tags := tags, fails := f0 ++ f1 ++ f2 })
+
 def step (_ : Unit) (op impl : String) : Unit × StepOut :=
   let w := words op
   if w.headD "" == "mig" then stepMig op impl else
+  if w.headD "" == "redial" then (if impl == "skip" then ((), { model := "skip", tags := ["skip"] }) else stepRedial op impl) else
   if w.headD "" != "scn" then ((), { model := "skip", tags := ["skip"] }) else
   let iw := words impl
   let expected := "hs=ok mid_stale=0 mid_routes=some end_srv_routes=0 end_srv_tokens=0 end_cli_routes=0 end_cli_tokens=0"
